@@ -826,6 +826,10 @@ func FakeBool(v interface{}) bool {
 		return bol
 	default:
 		vv := dereferenceValue(reflect.ValueOf(v))
+		if !vv.IsValid() {
+			// a typed nil pointer: false like nil itself (IsZero panics on the zero Value)
+			return false
+		}
 		if vv.IsValid() || vv.IsZero() {
 			return false
 		}
